@@ -60,39 +60,21 @@ func runC02(c *Ctx, r *Rec) {
 
 	checkReceiverWrites(c, r, "D1-receiver-writes-persist", set)
 	// ---- D1 every mutation of the storage happens at the searched position (site-local rule)
-	nsites := 0
-	insertHosts, removeHosts := map[string]bool{}, map[string]bool{}
+	var allFds []*ast.FuncDecl
 	for _, name := range sortedKeys(ms) {
-		fd := ms[name]
-		seq := 0
-		inspectNoLit(fd.Body, func(x ast.Node) bool {
-			rx, mname, call, ok := methodCall(x)
-			if !ok || selectorField(info, rx) != storage || !listMutators[mname] {
-				return true
-			}
-			nsites++
-			seq++
-			construct := fmt.Sprintf("%s/%s#%d", c.fdName(fd), mname, seq)
-			switch mname {
-			case "RemoveAll":
-				r.ok("D1-searched-position", construct, c.pos(call.Pos()), "emptying the storage keeps it (trivially) ordered and duplicate-free")
-			case "InsertValue", "RemoveValue":
-				bad := searchedSite(c, info, fd, call, searchFn, mname == "RemoveValue")
-				if bad == "" {
-					if mname == "InsertValue" {
-						insertHosts[name] = true
-					} else {
-						removeHosts[name] = true
-					}
-				}
-				r.check(bad == "", "D1-searched-position", construct, c.pos(call.Pos()),
-					map[string]string{"InsertValue": "inserts the searched value at the slot returned by the search for it, only when not found", "RemoveValue": "removes the index returned by the search, only when found"}[mname], bad)
-			default:
-				r.fail("D1-searched-position", construct, c.pos(call.Pos()), fmt.Sprintf("%s mutates the ordered storage through %s: order and uniqueness are only maintained by InsertValue at the searched slot, RemoveValue at the searched index, and RemoveAll", name, mname))
-			}
-			return true
-		})
+		allFds = append(allFds, ms[name])
 	}
+	inSet := map[*ast.FuncDecl]bool{}
+	for _, fd := range allFds {
+		inSet[fd] = true
+	}
+	// functions outside the set type that reach into its storage (class functions, helpers)
+	for _, fd := range c.allFuncDecls("collection") {
+		if !inSet[fd] && fd.Body != nil {
+			allFds = append(allFds, fd)
+		}
+	}
+	insertHosts, removeHosts, nsites := checkStorageSites(c, r, "D1-searched-position", info, allFds, storage, searchFn)
 	for _, w := range c.fieldWrites()[storage.Origin()] {
 		r.fail("D1-searched-position", c.fdName(w.In)+"/storage-write", c.pos(w.Pos), "the storage field is "+w.How+" outside the constructor")
 	}
@@ -144,7 +126,7 @@ func runC02(c *Ctx, r *Rec) {
 				}
 			}
 			bad := bulkFoldSet(c, info, fd, acc, b.deleg)
-			r.check(bad == "", "D5-bulk-fold", c.fdName(fd), c.pos(fd.Pos()), "applies the single-value operation to every element of the operand", bad)
+			r.verdict("D5-bulk-fold", c.fdName(fd), c.pos(fd.Pos()), "applies the single-value operation to every element of the operand", bad)
 		}
 	}
 	if fd := c.methodsOf(cls)["MakeFromSequence"]; fd != nil {
@@ -155,7 +137,7 @@ func runC02(c *Ctx, r *Rec) {
 			}
 		}
 		bad := bulkFoldSet(c, info, fd, acc, bulkAdders)
-		r.check(bad == "", "D5-bulk-fold", c.fdName(fd), c.pos(fd.Pos()), "adds every element of the source", bad)
+		r.verdict("D5-bulk-fold", c.fdName(fd), c.pos(fd.Pos()), "adds every element of the source", bad)
 	}
 	r.floor("D5-bulk-fold", 3)
 
@@ -653,4 +635,42 @@ func searchedSite(c *Ctx, info *types.Info, fd *ast.FuncDecl, site *ast.CallExpr
 			map[bool]string{false: "a value already present is inserted again (duplicate)", true: "an absent value removes whatever sits at the returned slot"}[wantFound])
 	}
 	return ""
+}
+
+// checkStorageSites: every call that mutates the set's ordered storage (in any of fds) is
+// RemoveAll, InsertValue at the searched slot or RemoveValue at the searched index.
+func checkStorageSites(c *Ctx, r *Rec, rule string, info *types.Info, fds []*ast.FuncDecl, storage *types.Var, searchFn *types.Func) (insertHosts, removeHosts map[string]bool, nsites int) {
+	insertHosts, removeHosts = map[string]bool{}, map[string]bool{}
+	for _, fd := range fds {
+		name := fd.Name.Name
+		seq := 0
+		inspectNoLit(fd.Body, func(x ast.Node) bool {
+			rx, mname, call, ok := methodCall(x)
+			if !ok || selectorField(info, rx) != storage || !listMutators[mname] {
+				return true
+			}
+			nsites++
+			seq++
+			construct := fmt.Sprintf("%s/%s#%d", c.fdName(fd), mname, seq)
+			switch mname {
+			case "RemoveAll":
+				r.ok(rule, construct, c.pos(call.Pos()), "emptying the storage keeps it (trivially) ordered and duplicate-free")
+			case "InsertValue", "RemoveValue":
+				bad := searchedSite(c, info, fd, call, searchFn, mname == "RemoveValue")
+				if bad == "" {
+					if mname == "InsertValue" {
+						insertHosts[name] = true
+					} else {
+						removeHosts[name] = true
+					}
+				}
+				r.check(bad == "", rule, construct, c.pos(call.Pos()),
+					map[string]string{"InsertValue": "inserts the searched value at the slot returned by the search for it, only when not found", "RemoveValue": "removes the index returned by the search, only when found"}[mname], bad)
+			default:
+				r.fail(rule, construct, c.pos(call.Pos()), fmt.Sprintf("%s mutates the ordered storage through %s: order and uniqueness are only maintained by InsertValue at the searched slot, RemoveValue at the searched index, and RemoveAll", name, mname))
+			}
+			return true
+		})
+	}
+	return
 }
